@@ -27,6 +27,8 @@ pub struct Weights {
     pub weak_new: u32,
     pub probe: u32,
     pub consume: u32,
+    /// percentage of ops that are a repeated multiplicity-building op
+    pub repeat: u32,
 }
 
 impl Weights {
@@ -52,6 +54,7 @@ impl Weights {
             weak_new: 1,
             probe: 1,
             consume: 0,
+            repeat: 4,
         }
     }
 }
@@ -132,7 +135,27 @@ fn plain_op(wt: &Weights) -> BoxedStrategy<Op> {
         v.push((c * 2, s().prop_map(Op::DropLoose).boxed()));
     }
     v.retain(|(w, _)| *w > 0);
-    proptest::strategy::Union::new_weighted(v).boxed()
+    let base = proptest::strategy::Union::new_weighted(v).boxed();
+    if wt.repeat == 0 {
+        return base;
+    }
+    // a repeated op: the inner op is one of the cheap multiplicity-building ops
+    let s2 = any::<u16>;
+    let inner = prop_oneof![
+        4 => (s2(), s2(), 1u8..3).prop_map(|(owner, target, adopt)| Op::Store { owner, target, adopt }),
+        2 => s2().prop_map(Op::CloneH),
+        2 => s2().prop_map(Op::Downgrade),
+        2 => (s2(), s2()).prop_map(|(owner, w)| Op::StoreWeak { owner, w }),
+        1 => s2().prop_map(Op::LoopbackAdopt),
+        1 => (s2(), s2()).prop_map(|(a, b)| Op::Unadopt { a, b }),
+        1 => s2().prop_map(Op::CloneWeak),
+    ];
+    let rep = (inner, 2u8..13).prop_map(|(op, k)| Op::Repeat { op: Box::new(op), k });
+    prop_oneof![
+        (100 - wt.repeat.min(50)) => base,
+        wt.repeat.min(50) => rep,
+    ]
+    .boxed()
 }
 
 fn dact(g: &GenCfg) -> BoxedStrategy<DAct> {
@@ -148,7 +171,9 @@ fn dact(g: &GenCfg) -> BoxedStrategy<DAct> {
         wt.consume = 0;
         wt.probe = 0;
         wt.drop += 10;
+        wt.repeat = 0;
         v.push((12, plain_op(&wt).prop_map(|op| DAct::Do(Box::new(op))).boxed()));
+        v.push((5, any::<u16>().prop_map(|s| DAct::Do(Box::new(Op::DropClosureRoots(s)))).boxed()));
     }
     if g.dact_panic {
         v.push((4, Just(DAct::Panic).boxed()));
@@ -195,6 +220,9 @@ enum Shape {
     TwoRings { a: usize, b: usize },
     SelfLoop { n: usize },
     Random { n: usize, edges: Vec<(u8, u8)> },
+    /// hub: object 0 adopts all others (link table with many distinct entries);
+    /// `back`: every spoke adopts the hub
+    Star { n: usize, back: bool },
     /// larger groups (size thresholds in the trace, long rings): ring over n
     /// objects plus chords
     Big { n: usize, chords: Vec<(u8, u8)> },
@@ -210,6 +238,7 @@ fn shape(max_n: usize) -> BoxedStrategy<Shape> {
         2 => (1..=mx.min(3)).prop_map(|n| Shape::SelfLoop { n }),
         6 => (1..=mx, vec((any::<u8>(), any::<u8>()), 0..10)).prop_map(|(n, edges)| Shape::Random { n, edges }),
         2 => (9usize..=36, vec((any::<u8>(), any::<u8>()), 0..6)).prop_map(|(n, chords)| Shape::Big { n, chords }),
+        2 => (3usize..=36, any::<bool>()).prop_map(|(n, back)| Shape::Star { n, back }),
     ]
     .boxed()
 }
@@ -271,6 +300,13 @@ fn shape_edges(s: &Shape) -> (usize, Vec<(usize, usize)>) {
             (*n, e)
         }
         Shape::Random { n, edges } => (*n, edges.iter().map(|&(a, b)| (a as usize % n, b as usize % n)).collect()),
+        Shape::Star { n, back } => {
+            let mut e: Vec<(usize, usize)> = (1..*n).map(|i| (0, i)).collect();
+            if *back {
+                e.extend((1..*n).map(|i| (i, 0)));
+            }
+            (*n, e)
+        }
         Shape::Big { n, chords } => {
             let mut e: Vec<(usize, usize)> = (0..*n).map(|i| (i, (i + 1) % n)).collect();
             e.extend(chords.iter().map(|&(a, b)| (a as usize % n, b as usize % n)));
@@ -335,7 +371,7 @@ pub fn script(g: GenCfg) -> BoxedStrategy<Script> {
     let cleanup = g.cleanup;
     let max_ops = g.max_ops;
     let weak_back = g.weak_back;
-    let pre = (0u32..100, shape(g.max_prefix_objs), vec(any::<u8>(), 48), vec(dscript(&g), 6)).prop_map(move |(p, sh, flags, ds)| {
+    let pre = (0u32..100, shape(g.max_prefix_objs), vec(any::<u8>(), 80), vec(dscript(&g), 6)).prop_map(move |(p, sh, flags, ds)| {
         let sh = if p < prefix_pct { sh } else { Shape::None };
         let (n, e) = shape_edges(&sh);
         prefix_ops(n, &e, &flags, ds, mode, adopt_pct, weak_back)
